@@ -55,6 +55,9 @@ EW = {
     'dawsn': (algopy.special.dawsn, lambda lo, hi: (-0.6, 0.6), lambda lo, hi: True),
     'gammaln': (algopy.special.gammaln, lambda lo, hi: (-0.2, max(math.lgamma(lo), math.lgamma(hi))), lambda lo, hi: lo > 0.6 and hi < 5),
     'psi': (algopy.special.psi, lambda lo, hi: (-2.0, 2.0), lambda lo, hi: lo > 0.6 and hi < 5),
+    # polygamma with an ARRAY of orders (one per entry; the array is a constant held by the recorded node)
+    'polygammaA': (lambda x: algopy.special.polygamma((np.arange(int(np.prod(x.shape))) % 3).reshape(x.shape), x),
+                   lambda lo, hi: (-12.0, 5.0), lambda lo, hi: lo > 0.6 and hi < 5),
     'absolute': (algopy.absolute, _sym_even(abs), lambda lo, hi: lo > 0.2 or hi < -0.2),
     'sign': (algopy.sign, lambda lo, hi: (-1.0, 1.0), lambda lo, hi: lo > 0.2 or hi < -0.2),
     'conjugate': (algopy.conjugate, lambda lo, hi: (lo, hi), lambda lo, hi: True),      # on real data: the identity, still one node
@@ -72,7 +75,7 @@ BIN = {'add': lambda a, b: a + b, 'sub': lambda a, b: a - b, 'mul': lambda a, b:
 
 # element-wise functions the tracer can record (Function has a method / pb_* exists)
 TRACEABLE = {'sin', 'cos', 'tan', 'exp', 'expm1', 'square', 'negative', 'log', 'log1p', 'sqrt', 'reciprocal', 'erf', 'expit',
-             'logit', 'dawsn', 'gammaln', 'psi', 'absolute', 'sign', 'pow2', 'pow3', 'powm2', 'pow1.5', 'conjugate', 'real', 'imag'}
+             'logit', 'dawsn', 'gammaln', 'psi', 'absolute', 'sign', 'pow2', 'pow3', 'powm2', 'pow1.5', 'conjugate', 'real', 'imag', 'polygammaA'}
 
 
 def _imul(a, b):
